@@ -320,11 +320,20 @@ impl Engine for C18 {
     }
     fn run_phase(&self, phase: &Phase, sink: &mut Sink) {
         let full = phase.param["full"].as_bool().unwrap();
-        let mut progs = c17::corpus(full);
         if full {
-            let skip = c17::corpus(false).len();
-            progs.drain(..skip);
+            c17::second_bound(sink, &mut |sink, idx, p| {
+                if !c17::sweepable(p) {
+                    return;
+                }
+                match emitted(&print(p).texts) {
+                    Ok(d) if doc::compare(&d, &d).is_ok() => {}
+                    _ => return,
+                }
+                sink.visit(idx, || c02::program_json(p, &print(p).texts), |s| judge(p, Some(s)));
+            });
+            return;
         }
+        let progs = c17::corpus(false);
         for (i, p) in progs.iter().enumerate() {
             let idx = i as u64;
             if !sink.mine(idx) {
